@@ -7,7 +7,7 @@ class Prop:
     id = "C06"
     level = "exploration"
     engine = "VT"
-    quick_runs = 80000
+    quick_runs = 200000
     thorough_runs = 3000000
     rule = ("seeded single aggregates (optionally behind one element-wise operator) over one generated timeline, compared value and "
             "virtual time with the Python computation (functools.reduce, min, sum, ...); sequence_equal additionally over two "
